@@ -5,6 +5,9 @@
 #include "parsec/data_dist/matrix/matrix.h"
 #include "parsec/arena.h"
 #include "parsec/data_internal.h"
+#include "parsec/parsec_comm_engine.h"
+#include "parsec/execution_stream.h"
+#include "parsec/mca/pins/pins.h"
 #include <mpi.h>
 #include <stdlib.h>
 #include <string.h>
@@ -19,6 +22,71 @@ static parsec_taskpool_t *TP;
 static parsec_data_collection_t *DC;
 
 static void insert_desc(const dtd_task_desc_t *d);
+static __thread int in_nested_insert;     /* this thread is inside an insertion issued from a task body */
+
+/* adversity (knob copy_stall, environment VERIF_DTD_COPY_STALL_NS set by the harness): the thread that executes
+ * a local copy / reshape command of the communication engine (the communication thread between dequeuing a
+ * DEP_MEMCPY command and executing it; a worker when there is no communication thread) is held up for that many
+ * simulated ns right before the copy is made.  A slow copy is something any machine may show; nothing else changes. */
+static parsec_ce_reshape_fn_t real_reshape;
+static uint64_t copy_stall_ns;
+static int stalled_reshape(parsec_comm_engine_t *ce, parsec_execution_stream_t *es, parsec_data_copy_t *dst, int64_t displ_dst,
+                           parsec_datatype_t layout_dst, uint64_t count_dst, parsec_data_copy_t *src, int64_t displ_src,
+                           parsec_datatype_t layout_src, uint64_t count_src)
+{
+#if defined(PARSEC_VERIF_SIM)
+    if (copy_stall_ns) sim_delay(copy_stall_ns);
+#endif
+    return real_reshape(ce, es, dst, displ_dst, layout_dst, count_dst, src, displ_src, layout_src, count_src);
+}
+static void install_copy_stall(void)
+{
+    if (!copy_stall_ns) return;
+    parsec_ce_reshape_fn_t cur = parsec_ce.reshape;
+    if (cur && cur != stalled_reshape) { real_reshape = cur; parsec_ce.reshape = stalled_reshape; }
+}
+
+/* observation through PaRSEC's own instrumentation interface (PINS): every time a task of our taskpool enters
+ * prepare_input (event 11) and every time one starts executing (event 12).  A task that keeps entering prepare_input
+ * without ever executing is being sent back by the write-after-read gate (AGAIN): the harness needs that to tell the
+ * known retry livelock from other hangs. */
+#if defined(PARSEC_PROF_PINS)
+static parsec_pins_next_callback_t pins_prep_next[64], pins_exec_next[64];
+static void pins_prep_cb(parsec_execution_stream_t *es, parsec_task_t *task, parsec_pins_next_callback_t *data)
+{
+    (void)es; (void)data;
+    if (task && task->taskpool == TP) dtdh_event(MYRANK, 11, 0, (long)(intptr_t)task);
+}
+static void pins_exec_cb(parsec_execution_stream_t *es, parsec_task_t *task, parsec_pins_next_callback_t *data)
+{
+    (void)es; (void)data;
+    if (task && task->taskpool == TP) dtdh_event(MYRANK, 12, 0, (long)(intptr_t)task);
+}
+static void install_pins(parsec_context_t *ctx)
+{
+    int n = 0;
+    parsec_pins_enable_mask |= PARSEC_PINS_FLAG_MASK(PREPARE_INPUT_BEGIN) | PARSEC_PINS_FLAG_MASK(EXEC_BEGIN);
+    for (int v = 0; v < ctx->nb_vp; v++)
+        for (int e = 0; e < ctx->virtual_processes[v]->nb_cores && n < 64; e++, n++) {
+            parsec_execution_stream_t *es = ctx->virtual_processes[v]->execution_streams[e];
+            if (!es) continue;
+            parsec_pins_register_callback(es, PREPARE_INPUT_BEGIN, pins_prep_cb, &pins_prep_next[n]);
+            parsec_pins_register_callback(es, EXEC_BEGIN, pins_exec_cb, &pins_exec_next[n]);
+        }
+}
+#else
+static void install_pins(parsec_context_t *ctx) { (void)ctx; }
+#endif
+
+/* the owner's copy of every locally owned tile, as it is when parsec_taskpool_wait has just returned */
+static void publish_after_wait(int first_index_after)
+{
+    for (int k = 0; k < SH->ntiles; k++) if ((int)DC->rank_of(DC, k, 0) == MYRANK) {
+        parsec_data_t *dt = DC->data_of(DC, k, 0);
+        int64_t *ptr = PARSEC_DATA_COPY_GET_PTR(parsec_data_get_copy(dt, 0));
+        dtdh_event(MYRANK, 7, ((long)first_index_after << 8) | k, (long)(intptr_t)ptr);
+    }
+}
 
 static int body_common(parsec_execution_stream_t *es, parsec_task_t *t)
 {
@@ -27,11 +95,13 @@ static int body_common(parsec_execution_stream_t *es, parsec_task_t *t)
     int64_t *p[DTD_MAX_PARAMS] = {0, 0, 0, 0};
     parsec_dtd_unpack_args(t, &id, &p[0], &p[1], &p[2], &p[3]);
     const dtd_task_desc_t *d = &SH->tasks[id];
+    if (in_nested_insert) dtdh_event(MYRANK, 9, id, 0);
+    dtdh_event(MYRANK, 6, id, (long)(intptr_t)t);
     int rc = dtdh_body(MYRANK, id, d->nparams, p);
     (void)rc;
     /* tasks inserting tasks */
     for (int i = 0; i < SH->ntasks; i++)
-        if (SH->tasks[i].inserter == id) insert_desc(&SH->tasks[i]);
+        if (SH->tasks[i].inserter == id) { in_nested_insert++; insert_desc(&SH->tasks[i]); in_nested_insert--; }
     return PARSEC_HOOK_RETURN_DONE;
 }
 /* one function per signature (DTD keys task classes by function pointer + flow count and
@@ -61,9 +131,9 @@ static int flag_of(const dtd_task_desc_t *d, int i)
 #define TILE(i) PARSEC_DTD_TILE_OF_KEY(DC, DC->data_key(DC, d->tile[i], 0))
 static void insert_desc(const dtd_task_desc_t *d)
 {
-    if (d->is_flush == 2) { parsec_dtd_data_flush_all(TP, DC); return; }
-    if (d->is_flush == 1) { parsec_dtd_data_flush(TP, TILE(0)); return; }
-    if (d->is_flush == 3) { parsec_taskpool_wait(TP); dtdh_event(MYRANK, 3, d->id, 0); return; }
+    if (d->is_flush == 2) { install_copy_stall(); dtdh_event(MYRANK, 8, d->id, 0); parsec_dtd_data_flush_all(TP, DC); dtdh_event(MYRANK, 10, d->id, 0); return; }
+    if (d->is_flush == 1) { install_copy_stall(); dtdh_event(MYRANK, 8, d->id, 0); parsec_dtd_data_flush(TP, TILE(0)); dtdh_event(MYRANK, 10, d->id, 0); return; }
+    if (d->is_flush == 3) { parsec_taskpool_wait(TP); publish_after_wait(d->id); dtdh_event(MYRANK, 3, d->id, 0); return; }
     if (d->is_flush || d->nparams < 1) return;
     parsec_dtd_funcptr_t *fn = bodies[sig_of(d)];
     int id = d->id;
@@ -103,6 +173,9 @@ void *rank_main(void *arg)
     MPI_Comm_rank(MPI_COMM_WORLD, &rank);
     parsec_context_t *ctx = parsec_init(SH->nthreads, NULL, NULL);
     if (!ctx) { dtdh_event(MYRANK, 99, 0, 0); return NULL; }
+    copy_stall_ns = getenv("VERIF_DTD_COPY_STALL_NS") ? strtoull(getenv("VERIF_DTD_COPY_STALL_NS"), NULL, 10) : 0;
+    install_copy_stall();
+    install_pins(ctx);
     int ne = SH->nelems, nt = SH->ntiles;
     parsec_matrix_block_cyclic_t *m = calloc(1, sizeof(*m));
     parsec_matrix_block_cyclic_init(m, PARSEC_MATRIX_DOUBLE, PARSEC_MATRIX_TILE, rank, ne, 1, nt * ne, 1, 0, 0, nt * ne, 1, world, 1, 1, 1, 0, 0);
@@ -121,14 +194,16 @@ void *rank_main(void *arg)
     parsec_dtd_attach_arena_datatype(ctx, adt, &TILE_FULL);
     parsec_context_add_taskpool(ctx, TP);
     parsec_context_start(ctx);
+    install_copy_stall();
     int since = 0;
     for (int i = 0; i < SH->ntasks; i++) {
         const dtd_task_desc_t *d = &SH->tasks[i];
         if (d->inserter >= 0) continue;
         insert_desc(d);
-        if (SH->wait_between && ++since >= SH->wait_between && !d->is_flush) { since = 0; parsec_taskpool_wait(TP); dtdh_event(MYRANK, 3, i, 0); }
+        if (SH->wait_between && ++since >= SH->wait_between && !d->is_flush) { since = 0; parsec_taskpool_wait(TP); publish_after_wait(i + 1); dtdh_event(MYRANK, 3, i, 0); }
     }
     parsec_taskpool_wait(TP);
+    publish_after_wait(SH->ntasks);
     dtdh_event(MYRANK, 4, 0, 0);
     parsec_context_wait(ctx);
     dtdh_event(MYRANK, 5, 0, 0);
